@@ -22,7 +22,7 @@ def _short(x, n=160):
 
 
 class Loc:
-    __slots__ = ('state', 'stage', 'stage_exact', 'tainted', 'writer', 'key', 'err_dir', 'err_partial', 'kind', 'slug', 'last_run', 'steps', 'fail_partial', 'tree', 'migrated')
+    __slots__ = ('state', 'stage', 'stage_exact', 'tainted', 'writer', 'key', 'err_dir', 'err_partial', 'kind', 'slug', 'last_run', 'steps', 'fail_partial', 'tree', 'migrated', 'faulted')
 
     def __init__(self, kind, slug, steps=0):
         self.state = 'absent'      # absent | complete | indoubt
@@ -40,6 +40,7 @@ class Loc:
         self.fail_partial = False
         self.tree = None
         self.migrated = False
+        self.faulted = False     # sticky: some run/save of this location failed or was interrupted at some point of the history
 
 
 class Obj:
@@ -732,7 +733,7 @@ class Eval:
         ob.ref_invalid = False
         persisted = it.kind not in PERSIST_NONE
         loc = j.loc(chain, it) if persisted else None
-        if loc is not None and (loc.tainted or loc.fail_partial):
+        if loc is not None and (loc.tainted or loc.fail_partial or loc.faulted):
             self.taint_seen = True
         if persisted and not ob.forced:
             if loc.state == 'complete':
@@ -853,6 +854,7 @@ class Eval:
         ob.mem = False
         if loc is not None:
             loc.tainted = True     # a run of it failed: what is asked of later requests is C05's "always recovers"
+            loc.faulted = True
 
         if loc is not None and loc.last_run:
             # a failed attempt (also one that failed while pulling its inputs) has rewritten the log (nothing is demanded of it then); the run info still belongs to the
@@ -922,6 +924,7 @@ class Eval:
             for (n, it2, loc, ob) in self.touched:
                 loc.state = 'indoubt'
                 loc.tainted = True
+                loc.faulted = True
                 loc.stage_exact = False
                 loc.last_run = {'valid': False}
             if diskerr:
